@@ -1,14 +1,27 @@
 // C09 -- serde deserialization of ranges (Kani, on the real crate; appended to src/de.rs).
 //
-// Part 1: DataDeserializer::deserialize_* -- one harness per method, complete over all non-String
-//         cells (Int(i64) | Float(f64) | Bool | Empty | DateTime | Error(kind)) and all positions.
-// Part 2: RangeDeserializer::{new,next,size_hint} + RowDeserializer -- bounded (concrete shapes).
+// Part 1  DataDeserializer::deserialize_* -- one harness per method (`de_*`), complete over all non-String
+//         cells (Int(i64) | Float(f64) | Bool | Empty | DateTime | Error(kind)) and all positions, observed
+//         with a recording Visitor; Part 1b: the same table through serde's own impls for i64/u8/f64/bool/
+//         Option<i64>/Data (`typed_*`), Empty as "", error cells under every method, tiny String cells.
+// Part 2a RowDeserializer as SeqAccess / MapAccess (`row_*`): one row, everything symbolic.
+// Part 2b RangeDeserializer::{new,next,size_hint}, Headers::None, 3 x 2 (`range_*`), one fact per harness.
+// Part 2c Headers::All (`headers_all_*`, `headers_only_*`) and Headers::Custom (`headers_custom_*`, thorough tier).
+// Part 2d Range built with Range::new + set_value; records through serde's tuple impl (thorough tier).
 //
 // The oracle is the conversion table of the property statement:
 //   Int(v)/Float(v) -> `v as T` delivered through visit_T       (numeric casts)
-//   Bool(b) -> b ; Empty -> None / unit / false                  (Empty as None/false/"")
-//   Error(k) -> Err(CellError { err: k, pos }) with pos passed through unchanged
+//   Bool(b) -> b ; Empty -> None / unit / false / ""             (Empty as None/false/"")
+//   Error(k) -> Err(CellError { err: k, pos }) with pos = the absolute position of that cell
 //   anything else into a typed numeric/unit target -> an error that is NOT a CellError
+//
+// CBMC facts that shape the harnesses (see kani/de.json "cbmc_args" / "stubs"):
+//   * --max-field-sensitivity-array-size 1024: without it symex loses every constant stored in a heap object
+//     larger than 64 bytes (a Vec<Data> with more than 2 cells), every cell's variant becomes symbolic and the
+//     String arms (str::parse, float rendering) are explored for every cell.
+//   * `Range::width()` must fold to a constant (chunk size of rows(), length of column_indexes): the column
+//     origin is concrete, the row origin is symbolic.
+//   * stubs: alloc::fmt::format and <T as ToString>::to_string (message texts), str::trim (headers_custom_* only).
 use crate::datatype::{ExcelDateTime, ExcelDateTimeType};
 use serde::de::MapAccess;
 
@@ -716,6 +729,22 @@ fn no_headers() -> RangeDeserializerBuilder<'static, &'static str> {
     b.has_headers(false);
     b
 }
+/// a record that does not look at its row at all (for the harnesses that only count items)
+struct Skip;
+impl<'de> Deserialize<'de> for Skip {
+    fn deserialize<D: Deserializer<'de>>(_d: D) -> Result<Self, D::Error> {
+        Ok(Skip)
+    }
+}
+fn count_iter_of<'a>(range: &'a Range<Data>) -> RangeDeserializer<'a, Data, Skip> {
+    match no_headers().from_range::<Data, Skip>(range) {
+        Ok(it) => it,
+        Err(_) => {
+            assert!(false);
+            unreachable!()
+        }
+    }
+}
 type It<'a> = RangeDeserializer<'a, Data, Row3<Got>>;
 fn iter_of<'a>(range: &'a Range<Data>) -> It<'a> {
     match no_headers().from_range::<Data, Row3<Got>>(range) {
@@ -736,7 +765,7 @@ const INTS: [[u8; W]; H] = [[0; W]; H];
 fn range_one_item_per_row() {
     let v: [[i64; W]; H] = kani::any();
     let s = sheet(&INTS, &v, &CellErrorType::NA);
-    let mut it = iter_of(&s.range);
+    let mut it = count_iter_of(&s.range);
     let mut n = 0;
     while n < H {
         assert!(it.next().is_some());
@@ -800,7 +829,7 @@ fn range_empty_cells_by_position() {
 fn hint_after(k: usize) -> ((usize, Option<usize>), usize) {
     let v: [[i64; W]; H] = kani::any();
     let s = sheet(&INTS, &v, &CellErrorType::NA);
-    let mut it = iter_of(&s.range);
+    let mut it = count_iter_of(&s.range);
     let mut n = 0;
     while n < k {
         let _ = it.next();
@@ -1032,10 +1061,45 @@ macro_rules! hdr_harness {
     };
 }
 
-hdr_harness! {
+/// loop-free record: the first two elements and whether the row ended after them
+struct Row2 {
+    a: Option<Got>,
+    b: Option<Got>,
+    ended: bool,
+}
+impl<'de> Deserialize<'de> for Row2 {
+    fn deserialize<D: Deserializer<'de>>(d: D) -> Result<Self, D::Error> {
+        struct V;
+        impl<'de> Visitor<'de> for V {
+            type Value = Row2;
+            fn expecting(&self, _f: &mut fmt::Formatter<'_>) -> fmt::Result {
+                Ok(())
+            }
+            fn visit_seq<A: SeqAccess<'de>>(self, mut s: A) -> Result<Row2, A::Error> {
+                let a = s.next_element::<Got>()?;
+                let b = s.next_element::<Got>()?;
+                let ended = s.next_element::<Got>()?.is_none();
+                Ok(Row2 { a, b, ended })
+            }
+        }
+        d.deserialize_seq(V)
+    }
+}
+macro_rules! custom_harness {
+    ($(#[$m:meta])* fn $name:ident() $body:block) => {
+        $(#[$m])*
+        #[kani::proof]
+        #[kani::unwind(3)]
+        #[kani::stub(alloc::fmt::format, format_stub)]
+        #[kani::stub(<f64 as alloc::string::ToString>::to_string, to_string_stub)]
+        #[kani::stub(str::trim, trim_stub)]
+        fn $name() $body
+    };
+}
+custom_harness! {
 /// selecting ["b","a"] on header cells " a", "b " (matched after trimming) selects columns [1, 0]
 fn headers_custom_column_indexes() {
-    let s = hsheet(" a", "b ", Data::Int(kani::any()), Data::Int(kani::any()));
+    let s = std::mem::ManuallyDrop::new(hsheet(" a", "b ", Data::Int(kani::any()), Data::Int(kani::any()))); // not dropped: keeps the unwind bound at 3
     let req = ["b", "a"];
     match RangeDeserializerBuilder::with_headers(&req).from_range::<Data, Row3<Got>>(&s.range) {
         Ok(it) => assert!(it.column_indexes.len() == 2 && it.column_indexes[0] == 1 && it.column_indexes[1] == 0),
@@ -1043,40 +1107,40 @@ fn headers_custom_column_indexes() {
     }
 }
 }
-hdr_harness! {
+custom_harness! {
 /// ... and the record carries the corresponding columns in the requested order
 fn headers_custom_record_in_requested_order() {
     let (x, y): (i64, i64) = kani::any();
-    let s = hsheet(" a", "b ", Data::Int(x), Data::Int(y));
+    let s = std::mem::ManuallyDrop::new(hsheet(" a", "b ", Data::Int(x), Data::Int(y))); // not dropped: keeps the unwind bound at 3
     let req = ["b", "a"];
-    match RangeDeserializerBuilder::with_headers(&req).from_range::<Data, Row3<Got>>(&s.range) {
+    match RangeDeserializerBuilder::with_headers(&req).from_range::<Data, Row2>(&s.range) {
         Ok(mut it) => match it.next() {
-            Some(Ok(r)) => assert!(r.n == 2 && r.e[0] == Some(Got::I64(y)) && r.e[1] == Some(Got::I64(x))),
+            Some(Ok(r)) => assert!(r.a == Some(Got::I64(y)) && r.b == Some(Got::I64(x)) && r.ended),
             _ => assert!(false),
         },
         Err(_) => assert!(false),
     }
 }
 }
-hdr_harness! {
+custom_harness! {
 /// the requested names are trimmed too, and a subset may be selected
 fn headers_custom_request_trimmed_subset() {
     let (x, y): (i64, i64) = kani::any();
-    let s = hsheet("a", "b", Data::Int(x), Data::Int(y));
+    let s = std::mem::ManuallyDrop::new(hsheet("a", "b", Data::Int(x), Data::Int(y))); // not dropped: keeps the unwind bound at 3
     let req = [" b "];
-    match RangeDeserializerBuilder::with_headers(&req).from_range::<Data, Row3<Got>>(&s.range) {
+    match RangeDeserializerBuilder::with_headers(&req).from_range::<Data, Row2>(&s.range) {
         Ok(mut it) => match it.next() {
-            Some(Ok(r)) => assert!(r.n == 1 && r.e[0] == Some(Got::I64(y))),
+            Some(Ok(r)) => assert!(r.a == Some(Got::I64(y)) && r.b.is_none()),
             _ => assert!(false),
         },
         Err(_) => assert!(false),
     }
 }
 }
-hdr_harness! {
+custom_harness! {
 /// a requested name that is not a header is HeaderNotFound(that name)
 fn headers_custom_not_found() {
-    let s = hsheet(" a", "b ", Data::Int(kani::any()), Data::Int(kani::any()));
+    let s = std::mem::ManuallyDrop::new(hsheet(" a", "b ", Data::Int(kani::any()), Data::Int(kani::any()))); // not dropped: keeps the unwind bound at 3
     let req = ["b", "c"];
     match RangeDeserializerBuilder::with_headers(&req).from_range::<Data, Row3<Got>>(&s.range) {
         Err(DeError::HeaderNotFound(h)) => assert!(h.as_bytes() == b"c"),
@@ -1084,10 +1148,10 @@ fn headers_custom_not_found() {
     }
 }
 }
-hdr_harness! {
+custom_harness! {
 /// the header row is not an item: one data row gives exactly one item (Headers::Custom)
 fn headers_custom_one_item_per_data_row() {
-    let s = hsheet("a", "b", Data::Int(kani::any()), Data::Int(kani::any()));
+    let s = std::mem::ManuallyDrop::new(hsheet("a", "b", Data::Int(kani::any()), Data::Int(kani::any()))); // not dropped: keeps the unwind bound at 3
     let req = ["a", "b"];
     match RangeDeserializerBuilder::with_headers(&req).from_range::<Data, Row3<Got>>(&s.range) {
         Ok(mut it) => {
@@ -1191,7 +1255,7 @@ fn headers_all_error_col() {
 /// size_hint with a header row: (hint after k next, items really to come)
 fn hdr_hint_after(k: usize) -> ((usize, Option<usize>), usize) {
     let s = hsheet("a", "b", Data::Int(kani::any()), Data::Int(kani::any()));
-    match RangeDeserializerBuilder::new().from_range::<Data, Row3<Got>>(&s.range) {
+    match RangeDeserializerBuilder::new().from_range::<Data, Skip>(&s.range) {
         Ok(mut it) => {
             if k == 1 {
                 assert!(it.next().is_some());
@@ -1210,9 +1274,15 @@ fn hdr_hint_after(k: usize) -> ((usize, Option<usize>), usize) {
     }
 }
 hdr_harness! {
-fn headers_all_size_hint_k0() {
-    let ((lo, hi), remaining) = hdr_hint_after(0);
-    assert!(lo <= remaining && upper_ok(hi, remaining));
+fn headers_all_size_hint_lower_k0() {
+    let ((lo, _), remaining) = hdr_hint_after(0);
+    assert!(lo <= remaining);
+}
+}
+hdr_harness! {
+fn headers_all_size_hint_upper_k0() {
+    let ((_, hi), remaining) = hdr_hint_after(0);
+    assert!(upper_ok(hi, remaining));
 }
 }
 hdr_harness! {
@@ -1222,12 +1292,19 @@ fn headers_all_size_hint_lower_k1() {
 }
 }
 hdr_harness! {
+fn headers_all_size_hint_upper_k1() {
+    let ((_, hi), remaining) = hdr_hint_after(1);
+    assert!(upper_ok(hi, remaining));
+}
+}
+hdr_harness! {
 /// a sheet that has only the header row: nothing to come; size_hint must say (0, _) and must not panic
 fn headers_only_size_hint() {
     let r0: u32 = kani::any();
+    kani::assume(r0 <= u32::MAX - 2);
     let start = (r0, C0);
     let range = Range { start, end: (r0, C0), inner: vec![Data::String(String::from("a"))] };
-    match RangeDeserializerBuilder::new().from_range::<Data, Row3<Got>>(&range) {
+    match RangeDeserializerBuilder::new().from_range::<Data, Skip>(&range) {
         Ok(mut it) => {
             let (lo, hi) = it.size_hint();
             assert!(lo == 0 && upper_ok(hi, 0));
@@ -1236,4 +1313,264 @@ fn headers_only_size_hint() {
         Err(_) => assert!(false),
     }
 }
+}
+
+// ---------------------------------------------------------------------------------------------
+// Part 1b -- the same table seen through serde's own impls for the target types (what a user's
+// record field of that type receives), and the remaining per-cell facts
+// ---------------------------------------------------------------------------------------------
+
+fn cell_err<T>(r: &Result<T, DeError>) -> Option<(u8, (u32, u32))> {
+    match r {
+        Err(DeError::CellError { err, pos }) => Some((kind_no(err), *pos)),
+        _ => None,
+    }
+}
+/// field of type T: Int(v)/Float(v) -> v as T; Error -> CellError; anything else -> some other error
+macro_rules! typed_num {
+    ($name:ident, $t:ty, $eq:expr) => {
+        #[kani::proof]
+        #[kani::stub(alloc::fmt::format, format_stub)]
+        #[kani::stub(<f64 as alloc::string::ToString>::to_string, to_string_stub)]
+        fn $name() {
+            for_all_cells(|d, pos| {
+                let r = <$t as Deserialize>::deserialize(d.to_cell_deserializer(pos));
+                match &d {
+                    Data::Int(v) => assert!(matches!(r, Ok(x) if ($eq)(x, *v as $t))),
+                    Data::Float(v) => assert!(matches!(r, Ok(x) if ($eq)(x, *v as $t))),
+                    Data::Error(k) => assert!(cell_err(&r) == Some((kind_no(k), pos))),
+                    _ => assert!(r.is_err() && cell_err(&r).is_none()),
+                }
+            });
+        }
+    };
+}
+typed_num!(typed_i64, i64, |a: i64, b: i64| a == b);
+typed_num!(typed_u8, u8, |a: u8, b: u8| a == b);
+typed_num!(typed_f64, f64, |a: f64, b: f64| a.to_bits() == b.to_bits());
+
+/// Option<i64> field: Empty -> None; Int/Float -> Some(v as i64); Error -> CellError at the cell
+#[kani::proof]
+#[kani::stub(alloc::fmt::format, format_stub)]
+#[kani::stub(<f64 as alloc::string::ToString>::to_string, to_string_stub)]
+fn typed_option_i64() {
+    for_all_cells(|d, pos| {
+        let r = <Option<i64> as Deserialize>::deserialize(d.to_cell_deserializer(pos));
+        match &d {
+            Data::Empty => assert!(matches!(r, Ok(None))),
+            Data::Int(v) => assert!(matches!(r, Ok(Some(x)) if x == *v)),
+            Data::Float(v) => assert!(matches!(r, Ok(Some(x)) if x == *v as i64)),
+            Data::Error(k) => assert!(cell_err(&r) == Some((kind_no(k), pos))),
+            _ => assert!(r.is_err() && cell_err(&r).is_none()),
+        }
+    });
+}
+/// bool field: Bool(b) -> b; Empty -> false
+#[kani::proof]
+#[kani::stub(alloc::fmt::format, format_stub)]
+#[kani::stub(<f64 as alloc::string::ToString>::to_string, to_string_stub)]
+fn typed_bool() {
+    for_all_cells(|d, pos| {
+        let r = <bool as Deserialize>::deserialize(d.to_cell_deserializer(pos));
+        match &d {
+            Data::Bool(b) => assert!(matches!(r, Ok(x) if x == *b)),
+            Data::Empty => assert!(matches!(r, Ok(false))),
+            Data::Error(k) => assert!(cell_err(&r) == Some((kind_no(k), pos))),
+            _ => assert!(cell_err(&r).is_none()),
+        }
+    });
+}
+/// Data field (Vec<Data> records): the cell itself; a DateTime arrives as its serial number; Error fails
+#[kani::proof]
+#[kani::stub(alloc::fmt::format, format_stub)]
+#[kani::stub(<f64 as alloc::string::ToString>::to_string, to_string_stub)]
+fn typed_data() {
+    for_all_cells(|d, pos| {
+        let r = <Data as Deserialize>::deserialize(d.to_cell_deserializer(pos));
+        match &d {
+            Data::Int(v) => assert!(matches!(r, Ok(Data::Int(x)) if x == *v)),
+            Data::Float(v) => assert!(matches!(r, Ok(Data::Float(x)) if x.to_bits() == v.to_bits())),
+            Data::Bool(b) => assert!(matches!(r, Ok(Data::Bool(x)) if x == *b)),
+            Data::Empty => assert!(matches!(r, Ok(Data::Empty))),
+            Data::DateTime(_) => assert!(matches!(r, Ok(Data::Float(x)) if x.to_bits() == dt_value(&d).to_bits())),
+            Data::Error(k) => assert!(cell_err(&r) == Some((kind_no(k), pos))),
+            _ => assert!(false),
+        }
+    });
+}
+
+/// Empty as "": str / string targets see the empty string, bytes targets the empty slice
+#[kani::proof]
+#[kani::stub(alloc::fmt::format, format_stub)]
+fn de_empty_as_empty_string() {
+    let d = Data::Empty;
+    let pos: (u32, u32) = kani::any();
+    assert!(observe(d.to_cell_deserializer(pos).deserialize_str(RecV)) == Out::Ok(Got::EmptyStr));
+    assert!(observe(d.to_cell_deserializer(pos).deserialize_string(RecV)) == Out::Ok(Got::EmptyStr));
+    assert!(observe(d.to_cell_deserializer(pos).deserialize_bytes(RecV)) == Out::Ok(Got::EmptyBytes));
+    assert!(observe(d.to_cell_deserializer(pos).deserialize_byte_buf(RecV)) == Out::Ok(Got::EmptyBytes));
+}
+
+/// an error cell fails with CellError{kind, pos} whatever the target asks for
+#[kani::proof]
+#[kani::stub(alloc::fmt::format, format_stub)]
+#[kani::stub(<f64 as alloc::string::ToString>::to_string, to_string_stub)]
+fn de_error_cell_every_method() {
+    let k = any_kind();
+    let d = Data::Error(k.clone());
+    let pos: (u32, u32) = kani::any();
+    let want = Out::CellErr(kind_no(&k), pos);
+    let de = || d.to_cell_deserializer(pos);
+    assert!(observe(de().deserialize_any(RecV)) == want);
+    assert!(observe(de().deserialize_bool(RecV)) == want);
+    assert!(observe(de().deserialize_i8(RecV)) == want);
+    assert!(observe(de().deserialize_i16(RecV)) == want);
+    assert!(observe(de().deserialize_i32(RecV)) == want);
+    assert!(observe(de().deserialize_i64(RecV)) == want);
+    assert!(observe(de().deserialize_u8(RecV)) == want);
+    assert!(observe(de().deserialize_u16(RecV)) == want);
+    assert!(observe(de().deserialize_u32(RecV)) == want);
+    assert!(observe(de().deserialize_u64(RecV)) == want);
+    assert!(observe(de().deserialize_f32(RecV)) == want);
+    assert!(observe(de().deserialize_f64(RecV)) == want);
+    assert!(observe(de().deserialize_char(RecV)) == want);
+    assert!(observe(de().deserialize_str(RecV)) == want);
+    assert!(observe(de().deserialize_string(RecV)) == want);
+    assert!(observe(de().deserialize_bytes(RecV)) == want);
+    assert!(observe(de().deserialize_byte_buf(RecV)) == want);
+    assert!(observe(de().deserialize_unit(RecV)) == want);
+    assert!(observe(de().deserialize_unit_struct("U", RecV)) == want);
+    assert!(observe(de().deserialize_seq(RecV)) == want);
+    assert!(observe(de().deserialize_tuple(2, RecV)) == want);
+    assert!(observe(de().deserialize_map(RecV)) == want);
+    assert!(observe(de().deserialize_struct("S", &["a"], RecV)) == want);
+    assert!(observe(de().deserialize_enum("E", &["A"], RecV)) == want);
+    assert!(observe(de().deserialize_identifier(RecV)) == want);
+    assert!(observe(de().deserialize_ignored_any(RecV)) == want);
+}
+
+/// boolean strings: exactly TRUE/true/True and FALSE/false/False are accepted
+#[kani::proof]
+#[kani::unwind(7)]
+#[kani::stub(alloc::fmt::format, format_stub)]
+fn de_bool_strings() {
+    let pos: (u32, u32) = kani::any();
+    let t = |s: &str| observe(Data::String(String::from(s)).to_cell_deserializer(pos).deserialize_bool(RecV));
+    assert!(t("TRUE") == Out::Ok(Got::Bool(true)));
+    assert!(t("true") == Out::Ok(Got::Bool(true)));
+    assert!(t("True") == Out::Ok(Got::Bool(true)));
+    assert!(t("FALSE") == Out::Ok(Got::Bool(false)));
+    assert!(t("false") == Out::Ok(Got::Bool(false)));
+    assert!(t("False") == Out::Ok(Got::Bool(false)));
+    assert!(t("yes") == Out::OtherErr);
+    assert!(t("") == Out::OtherErr);
+}
+
+/// numeric strings of one or two bytes: accepted exactly when they are [+-]?digit+, with the decimal value
+#[kani::proof]
+#[kani::unwind(4)]
+#[kani::stub(alloc::fmt::format, format_stub)]
+fn de_i64_short_strings() {
+    let b: [u8; 2] = kani::any();
+    let n: usize = kani::any();
+    kani::assume(n == 1 || n == 2);
+    kani::assume(b[0] < 0x80 && b[1] < 0x80);
+    let mut s = String::new();
+    s.push(b[0] as char);
+    if n == 2 {
+        s.push(b[1] as char);
+    }
+    let pos: (u32, u32) = kani::any();
+    let out = observe(Data::String(s).to_cell_deserializer(pos).deserialize_i64(RecV));
+    let dig = |c: u8| c >= b'0' && c <= b'9';
+    let val = |c: u8| (c - b'0') as i64;
+    let expect = if n == 1 {
+        if dig(b[0]) { Out::Ok(Got::I64(val(b[0]))) } else { Out::OtherErr }
+    } else if dig(b[0]) && dig(b[1]) {
+        Out::Ok(Got::I64(10 * val(b[0]) + val(b[1])))
+    } else if b[0] == b'-' && dig(b[1]) {
+        Out::Ok(Got::I64(-val(b[1])))
+    } else if b[0] == b'+' && dig(b[1]) {
+        Out::Ok(Got::I64(val(b[1])))
+    } else {
+        Out::OtherErr
+    };
+    kani::cover!(n == 2 && b[0] == b'-' && b[1] == b'7');
+    assert!(out == expect);
+}
+
+// ---------------------------------------------------------------------------------------------
+// Part 2d -- same range facts through the public Range API and through serde's tuple impl
+// ---------------------------------------------------------------------------------------------
+
+/// Range built with Range::new + set_value at a concrete origin: rows come in order, cells by position
+#[kani::proof]
+#[kani::unwind(8)]
+#[kani::stub(alloc::fmt::format, format_stub)]
+#[kani::stub(<f64 as alloc::string::ToString>::to_string, to_string_stub)]
+fn range_api_built_rows_in_order() {
+    let v: [[i64; W]; H] = kani::any();
+    let start = (3u32, C0);
+    let mut range: Range<Data> = Range::new(start, (start.0 + H as u32 - 1, start.1 + W as u32 - 1));
+    let mut i = 0;
+    while i < H {
+        range.set_value((start.0 + i as u32, start.1), Data::Int(v[i][0]));
+        range.set_value((start.0 + i as u32, start.1 + 1), Data::Int(v[i][1]));
+        i += 1;
+    }
+    let mut it = iter_of(&range);
+    let mut n = 0;
+    while n < H {
+        match it.next() {
+            Some(Ok(r)) => assert!(r.n as usize == W && r.e[0] == Some(Got::I64(v[n][0])) && r.e[1] == Some(Got::I64(v[n][1]))),
+            _ => assert!(false),
+        }
+        n += 1;
+    }
+    assert!(it.next().is_none());
+}
+
+/// records of type (i64, Option<i64>) through serde's own tuple / Option / i64 impls, 2 x 2
+#[kani::proof]
+#[kani::unwind(12)]
+#[kani::stub(alloc::fmt::format, format_stub)]
+#[kani::stub(<f64 as alloc::string::ToString>::to_string, to_string_stub)]
+fn range_typed_tuple_records() {
+    let v: [[i64; 2]; 2] = kani::any();
+    let e: bool = kani::any();
+    let r0: u32 = kani::any();
+    kani::assume(r0 <= u32::MAX - 2);
+    let inner = vec![Data::Int(v[0][0]), Data::Int(v[0][1]), Data::Int(v[1][0]), if e { Data::Empty } else { Data::Int(v[1][1]) }];
+    let range = Range { start: (r0, C0), end: (r0 + 1, C0 + 1), inner };
+    match no_headers().from_range::<Data, (i64, Option<i64>)>(&range) {
+        Ok(mut it) => {
+            assert!(matches!(it.next(), Some(Ok((a, Some(b)))) if a == v[0][0] && b == v[0][1]));
+            assert!(matches!(it.next(), Some(Ok((a, b))) if a == v[1][0] && b == if e { None } else { Some(v[1][1]) }));
+            assert!(it.next().is_none());
+        }
+        Err(_) => assert!(false),
+    }
+}
+
+/// with_deserialize_headers::<T>() selects exactly the field names T asks for in deserialize_struct, in that order
+#[kani::proof]
+#[kani::unwind(4)]
+#[kani::stub(alloc::fmt::format, format_stub)]
+#[kani::stub(<f64 as alloc::string::ToString>::to_string, to_string_stub)]
+fn builder_deserialize_headers_are_struct_fields() {
+    let b = RangeDeserializerBuilder::with_deserialize_headers::<Map3>();
+    match b.headers {
+        Headers::Custom(h) => assert!(h.len() == 2 && h[0].as_bytes() == b"a" && h[1].as_bytes() == b"b"),
+        _ => assert!(false),
+    }
+    // a target that is not a struct selects nothing
+    let b = RangeDeserializerBuilder::with_deserialize_headers::<i64>();
+    assert!(matches!(b.headers, Headers::Custom(h) if h.is_empty()));
+    // has_headers switches between the whole header row and no header row
+    let mut b = RangeDeserializerBuilder::new();
+    assert!(matches!(b.headers, Headers::All));
+    b.has_headers(false);
+    assert!(matches!(b.headers, Headers::None));
+    b.has_headers(true);
+    assert!(matches!(b.headers, Headers::All));
 }
